@@ -39,9 +39,7 @@ def main():
                             f.write(txt)
 
                     def mk():
-                        for fn in os.listdir(d):
-                            if fn.endswith(".pgc"):
-                                os.remove(os.path.join(d, fn))
+                        # first call: no cache (table computed and cached); second call: the table comes from the cache
                         return real.Grammar.from_file(os.path.join(d, item["root"]))
                 else:
                     def mk():
@@ -49,14 +47,15 @@ def main():
                 p1 = real.GLRParser(mk(), tables=real.TABLES[item.get("tables", "LALR")])
                 p2 = real.GLRParser(mk(), tables=real.TABLES[item.get("tables", "LALR")])
                 rec["t1"], rec["t2"] = obs(p1), obs(p2)
-                rec["forests"] = []
-                for w in item.get("inputs", []):
-                    try:
-                        f = p1.parse(w)
-                        n = len(f)
-                        rec["forests"].append([w, min(n, 10**6), [f[i].to_str() for i in range(min(n, 12))]])
-                    except Exception as e:  # noqa: BLE001
-                        rec["forests"].append([w, -1, [type(e).__name__]])
+                rec["forests"], rec["forests2"] = [], []
+                for p, key in ((p1, "forests"), (p2, "forests2")):
+                    for w in item.get("inputs", []):
+                        try:
+                            f = p.parse(w)
+                            n = len(f)
+                            rec[key].append([w, min(n, 10**6), [f[i].to_str() for i in range(min(n, 12))]])
+                        except Exception as e:  # noqa: BLE001
+                            rec[key].append([w, -1, [type(e).__name__]])
         except Exception as e:  # noqa: BLE001
             rec["err"] = type(e).__name__
         finally:
